@@ -75,7 +75,8 @@ def mutate(rng, text):
         c = rng.randint(0, len(ls[k]))
         ls[k] = ls[k][:c]
     elif op == 5:
-        ls.insert(k, rng.choice(["#define X \\", "#if X", "#ifdef A", "#else", "#endif", "#include \"x.h\"", "#define F(a,b) a+b\\n", "#define E()", "#if (defined A) || defined(B)", "#elif 1"]))
+        ls.insert(k, rng.choice(["#define X \\", "#if X", "#ifdef A", "#else", "#endif", "#include \"x.h\"", "#define F(a,b) a+b\\n", "#define E()", "#if (defined A) || defined(B)", "#elif 1",
+                                 "#undef X", "#define X(a) a+1", "#define X 2", "#undef F", "#define F 3", "#define A(x,y) x*y", "#undef A", " i = X + F(1,2) + A", " j = X(2) + F + A(1,2)"]))
     elif op == 6:
         c = rng.randint(0, len(ls[k]))
         ls[k] = ls[k][c:]
@@ -112,6 +113,7 @@ def stressors(rng):
     out.append(("define-cont-blank", "#define X 1 \\\n\nprogram p\nend program p\n"))
     out.append(("macro-backslash", "#define P \"C:\\dir\\1\"\n#define F() 42\n#define G(a,b) a\\b\nprogram p\n print *, P, F(), G(1,2)\nend program p\n"))
     out.append(("macro-self", "#define X X\n#define A B\n#define B A\n#if X\n#endif\n#if A\n#endif\nprogram p\n i = X + A\nend program p\n"))
+    out.append(("macro-redefine", "#define X 1\nprogram p\n a = X\n#undef X\n#define X(a) a+1\n b = X(2)\n#undef X\n#define X 7\n c = X\n#define F(a) a\n d = F(1)\n#undef F\n#define F 2\n e = F\nend program p\n"))
     out.append(("macro-regex", "#define R(a) [a]*+?{a}^$|.\nprogram p\n i = R(1)\nend program p\n"))
     out.append(("self-include", "#include \"@SELF@\"\n#include \"@SELF@\"\nsubroutine si()\n  include '@SELF@'\nend subroutine si\n"))
     out.append(("procedure-outside", "procedure(foo) :: bar\nprocedure :: baz\n"))
